@@ -75,6 +75,9 @@ Silent ==
        \/ RollFill
        \/ Eof /\ pc' = "done"
        \/ Mode = "find" /\ EmitAction /\ last'.kind = "n" /\ outpos' # outpos /\ pc' # "failed"
+       \* table replacement: an empty replacement is written with zero write calls
+       \/ Mode = "table" /\ MatchChunk /\ last'.kind = "m" /\ nm' = nm + 1 /\ pc' # "failed"
+            /\ E.R[last'.mat[1]] = <<>>
     /\ UNCHANGED <<t, l>>
 
 OpStep ==
@@ -89,6 +92,11 @@ OpStep ==
           /\ last'.kind = "n" /\ outpos' # outpos /\ last'.bytes = o[2]
        \/ /\ o[1] = "wfail" /\ Mode = "replace" /\ EmitAction /\ pc' = "failed"
           /\ last'.kind = "n" /\ outpos' # outpos /\ last'.bytes = o[2]
+       \* table variant: chunks and replacements are both plain writes
+       \/ /\ o[1] \in {"w", "wfail"} /\ Mode = "table"
+          /\ \/ EmitAction /\ last'.kind = "n" /\ outpos' # outpos /\ last'.bytes = o[2]
+             \/ MatchChunk /\ last'.kind = "m" /\ nm' = nm + 1 /\ o[2] = E.R[last'.mat[1]] /\ o[2] # <<>>
+          /\ (pc' = "failed") <=> (o[1] = "wfail")
        \/ /\ o[1] = "m" /\ Mode = "replace" /\ MatchChunk /\ pc' # "failed"
           /\ last'.kind = "m" /\ nm' = nm + 1 /\ last'.mat = ToM3(o) /\ last'.bytes = o[5]
        \/ /\ o[1] = "mfail" /\ Mode = "replace" /\ MatchChunk /\ pc' = "failed"
@@ -141,6 +149,9 @@ Skip ==
     /\ IF E.ev = "stream_table"
        THEN (IF TableOK(E) THEN TRUE
              ELSE Reject("stream replace_all output differs from in-memory replace_all"))
+       ELSE IF E.ev = "stream_mem"     \* long streams: the two real outputs are compared (C08)
+       THEN (IF E.end = "ok" /\ E.res = E.mem THEN TRUE
+             ELSE Reject("stream replace_all output differs from the in-memory replace_all output"))
        ELSE TRUE
     /\ LoadNext
 
